@@ -197,6 +197,67 @@ func c17(c *Ctx) {
 	// has to shorten the file and drop the chunk files after the new head. Neither happens today: known findings.
 	c17RewindPersistent(c, "C17.2/rewind-is-persistent")
 
+	// ---- preallocation and the compressed-read bound ------------------------------------------------------------
+	if f := c.mustFn("C17.2/singleapp-prealloc", "embedded/appendable/singleapp.Open"); f != nil {
+		// a preallocated file is exactly preallocSize bytes long after the header: the size found at reopen is the
+		// physical length, and a multi-file appendable addresses chunk k+1 at (k+1)*fileSize. The zero-fill loop writes
+		// slices bounded by what is left, never whole blocks.
+		r := "C17.2/singleapp-prealloc"
+		n := 0
+		for _, in := range sites(f, callTo("bufio.(*Writer).Write")) {
+			arg := callOf(in).Args[1]
+			sl, ok := arg.(*ssa.Slice)
+			// the write of the zero-fill loop: its block is entered across `preallocated < preallocSize`
+			inLoop := false
+			for _, blk := range f.Blocks {
+				for si := range blk.Succs {
+					if whenCond(true, func(a string) bool { return strings.Contains(a, "preallocSize") && strings.Contains(a, " < ") })(blk, si) && edgeDominates(blk, si, in.Block()) {
+						inLoop = true
+					}
+				}
+			}
+			if !inLoop {
+				continue
+			}
+			n++
+			bounded := ok && sl.High != nil && dependsOn(sl.High, func(v ssa.Value) bool { return hasFieldSuffix(desc(v), "preallocSize") })
+			c.check(bounded, r, fmt.Sprintf("%s:zero-fill-write#%d", fnName(f), n), c.pos(in.Pos()), "each zero-fill write is cut to what is left of preallocSize", "the zero-fill loop writes "+desc(arg)+" without cutting it to the remaining preallocation: the file ends up longer than preallocSize")
+		}
+		if n == 0 {
+			c.undecided(r, fnName(f)+":zero-fill", "the zero-fill write of the preallocation loop was not found")
+		}
+	}
+	if f := c.mustFn("C17.2/singleapp-readat", aofT+"ReadAt"); f != nil {
+		// a compressed entry is readable as soon as Append returned its offset: the chunk-length bound is taken against the
+		// logical size offset() (file + write buffer), not against what has already reached the file
+		r := "C17.2/singleapp-readat"
+		n := 0
+		allInstrs(f, false, func(in ssa.Instruction) {
+			ifi, ok := in.(*ssa.If)
+			if !ok {
+				return
+			}
+			for _, leaf := range boolLeaves(ifi.Cond) {
+				bo, ok := leaf.(*ssa.BinOp)
+				if !ok || (bo.Op != token.GTR && bo.Op != token.LSS && bo.Op != token.GEQ && bo.Op != token.LEQ) {
+					continue
+				}
+				if !dependsOn(bo.X, func(v ssa.Value) bool { return isWideDecode(v) }) && !dependsOn(bo.Y, func(v ssa.Value) bool { return isWideDecode(v) }) {
+					continue
+				}
+				n++
+				logical := func(v ssa.Value) bool {
+					cl, ok := v.(*ssa.Call)
+					return ok && calleeName(&cl.Call) == aofT+"offset"
+				}
+				c.check(dependsOn(bo.X, logical) || dependsOn(bo.Y, logical), r, fmt.Sprintf("%s:compressed-chunk-bound#%d", fnName(f), n), c.pos(bo.Pos()), "the chunk length is bounded by offset()", "the length of a compressed chunk is bounded by "+desc(bo)+", which does not involve the logical size offset(): entries still in the write buffer are reported as EOF")
+			}
+		})
+		if n == 0 {
+			c.undecided(r, fnName(f)+":compressed-chunk-bound", "no comparison of the decoded chunk length found")
+		}
+	}
+
 	// ---- reads ----------------------------------------------------------------------------------------
 	r = "C17.2/singleapp-readat"
 	if f := c.mustFn(r, aofT+"readAt"); f != nil {
